@@ -19,6 +19,10 @@ Block == /\ l <= Len(T.ev)
             /\ UNCHANGED <<pc, d, i, pos, index, nindex, cols, calls, names, tid>>
             /\ Require(e.cols = Comb', T.id, "SameColumns", l, [got |-> e.cols, want |-> Comb'])
             /\ Require(e.names = Comb', T.id, "NamesMatch", l, [got |-> e.names, want |-> Comb'])
+            \* names built from caller-supplied input names (one a prefix of another): same monomials
+            /\ Require(e.names_given = Comb', T.id, "GivenNamesMatch", l, [got |-> e.names_given, want |-> Comb'])
+            \* a second transform (other values, same shape) is right too and leaves the first result alone
+            /\ Require(e.kept, T.id, "EarlierResultKept", l, <<>>)
             /\ Require(e.nout = Len(Comb'), T.id, "NOutput", l, [got |-> e.nout, want |-> Len(Comb')])
             /\ Require(e.skcols = Comb', T.id, "SpecCombIsSklearnPowers", l, [got |-> e.skcols])
             /\ Require(e.eqsk, T.id, "ValuesEqualSklearn", l, <<>>)
